@@ -243,6 +243,19 @@ def handler(p):
             header = pysam.AlignmentHeader.from_dict({'HD': {'VN': '1.6'}, 'SQ': sq})
             handle = pysam.FastaFile(fa)
             refhandles = {'pysam': handle, 'cached': CachedFasta(handle), 'cachednh': CachedFastaNoHandle(fa)}
+            # a SECOND reference with the same contig names and lengths but other sequences (the contigs of every history
+            # rotated by one name): one TAPS object is handed molecules of both references, so anything it remembers
+            # about (contig name, position) without the reference is stale for the other one
+            fa2 = os.path.join(scratch, 'ref_alt.fa')
+            with open(fa2, 'w') as f:
+                for i, h in enumerate(hists):
+                    n = len(h['contigs'])
+                    for j in range(n):
+                        f.write('>h%d_%d\n%s\n' % (i, j, h['contigs'][(j + 1) % n]))
+            if hists:
+                pysam.faidx(fa2)
+                handle2 = pysam.FastaFile(fa2)
+                althandles = {'pysam': handle2, 'cached': CachedFasta(handle2), 'cachednh': CachedFastaNoHandle(fa2)}
             res = []
             for i, c in enumerate(cases):
                 try:
@@ -255,9 +268,13 @@ def handler(p):
                 # ONE TAPS object (and one reference handle) for all molecules of the history, as in the taggers
                 taps = TAPS()
                 rs = []
-                for m in h['mols']:
+                for k, m in enumerate(h['mols']):
                     c = dict(m); c['ref'] = h['contigs'][m['contig']]; c['refkind'] = h['refkind']
+                    alt = (k % 2 == 1) and all(len(x) == len(h['contigs'][0]) for x in h['contigs'])
                     try:
+                        if alt:    # same sequence, found under another contig name of the alternate reference
+                            rs.append(run_case(c, 'h%d_%d' % (i, (m['contig'] - 1) % len(h['contigs'])), header, althandles, taps=taps))
+                            continue
                         rs.append(run_case(c, 'h%d_%d' % (i, m['contig']), header, refhandles, taps=taps))
                     except BaseException as e:
                         rs.append({'harness_error': '%s: %s' % (type(e).__name__, e)})
